@@ -87,6 +87,8 @@ template <class Q, bool B> static int run_one(int cap, unsigned long seed, int d
     g_live = N;
     Sched S; S.stall_limit = 30000; S.log_schedule = true;
     focus_only(false);
+    // the two global ticket counters are the protocol words: PCT places its change points right after an access to one of them with probability 1/3
+    untrack_all(); track(&q->my_queue_representation->head_counter); track(&q->my_queue_representation->tail_counter);
     S.spawn(N, [&](int t) { body<Q, B>(*q, t); });
     int rc = den == 0 ? S.finish(3000000) : S.run_random(seed, 3000000, den);
     ++st.paths; st.steps += S.steps;
